@@ -553,14 +553,180 @@ func atomBase(cond ssa.Value, pkg, typ, field string) ssa.Value {
 // single-predecessor branch edges on its dominator chain) on pred(cond) with
 // the given polarity.
 func hasFact(b *ssa.BasicBlock, polarity bool, pred func(ssa.Value) bool) bool {
+	return hasFactD(b, polarity, pred, 0)
+}
+
+func hasFactD(b *ssa.BasicBlock, polarity bool, pred func(ssa.Value) bool, depth int) bool {
 	for _, f := range an.BranchFacts(b) {
 		cond, neg := an.Not(f.Cond)
 		pol := f.True != neg
 		if pol == polarity && pred(cond) {
 			return true
 		}
+		// a boolean assembled from several tests (`closed := a(err) || b(err); if !closed {...}`): a phi of constants and
+		// test results; the fact holds when it holds on every edge the phi's value allows
+		if phi, isPhi := cond.(*ssa.Phi); isPhi && depth < 3 && phiFact(phi, pol, polarity, pred, depth) {
+			return true
+		}
+		// a test of a classifier's result (`switch classify(err) { case kindClosed: ...`): it implies the predicate when
+		// every return of the classifier that the test selects is itself control-dependent on it
+		if depth < 2 {
+			if p, known := classImpliesPred(cond, pol, pred, depth); known && p == polarity {
+				return true
+			}
+		}
+	}
+	// a join of edges each of which carries the fact (`if a(x) || b(x) { ... }` with both a and b satisfying pred)
+	if len(b.Preds) >= 2 && depth < 3 {
+		for _, p := range b.Preds {
+			if len(p.Instrs) == 0 {
+				return false
+			}
+			edge := false
+			if iff, ok := p.Instrs[len(p.Instrs)-1].(*ssa.If); ok && p.Succs[0] != p.Succs[1] {
+				cond, neg := an.Not(iff.Cond)
+				pol := (p.Succs[0] == b) != neg
+				edge = pol == polarity && pred(cond)
+			}
+			if !edge && !hasFactD(p, polarity, pred, depth+1) {
+				return false
+			}
+		}
+		return true
 	}
 	return false
+}
+
+// phiFact: the boolean phi having the value `truth` implies that a condition
+// satisfying pred has polarity `polarity`: every edge that can carry that value
+// does - a constant edge through the branch it comes from, a value edge through
+// the value itself.
+func phiFact(phi *ssa.Phi, truth, polarity bool, pred func(ssa.Value) bool, depth int) bool {
+	n := 0
+	for i, e := range phi.Edges {
+		if i >= len(phi.Block().Preds) {
+			return false
+		}
+		p := phi.Block().Preds[i]
+		if v, isC := an.BoolConst(e); isC {
+			if v != truth {
+				continue // this edge cannot carry the value
+			}
+			ok := false
+			if len(p.Instrs) > 0 {
+				if iff, isIf := p.Instrs[len(p.Instrs)-1].(*ssa.If); isIf && p.Succs[0] != p.Succs[1] {
+					cond, neg := an.Not(iff.Cond)
+					ok = ((p.Succs[0] == phi.Block()) != neg) == polarity && pred(cond)
+				}
+			}
+			if !ok && !hasFactD(p, polarity, pred, depth+1) {
+				return false
+			}
+			n++
+			continue
+		}
+		cond, neg := an.Not(e)
+		if (truth != neg) == polarity && pred(cond) {
+			n++
+			continue
+		}
+		if inner, isPhi := cond.(*ssa.Phi); isPhi && depth < 3 && phiFact(inner, truth != neg, polarity, pred, depth+1) {
+			n++
+			continue
+		}
+		return false
+	}
+	return n > 0
+}
+
+// classifierCallLoose is classifierCall for classifiers of values other than
+// requests (errors): K may call functions outside the module (errors.Is,
+// strings.Contains, err.Error(), net.Error.Temporary()) but stores nothing
+// and calls nothing of the module.
+func classifierCallLoose(cond ssa.Value) (*ssa.Call, int64, bool, bool) {
+	if call, k, neq, ok := classifierCall(cond); ok {
+		return call, k, neq, ok
+	}
+	bo, ok := cond.(*ssa.BinOp)
+	if !ok || (bo.Op != token.EQL && bo.Op != token.NEQ) {
+		return nil, 0, false, false
+	}
+	x, kc := bo.X, bo.Y
+	if _, isK := an.IntConst(x); isK {
+		x, kc = bo.Y, bo.X
+	}
+	k, isK := an.IntConst(kc)
+	call, isCall := an.Strip(x).(*ssa.Call)
+	if !isK || !isCall {
+		return nil, 0, false, false
+	}
+	K := an.StaticCallee(call.Common())
+	if K == nil || !an.InModule(K) || len(K.Blocks) == 0 {
+		return nil, 0, false, false
+	}
+	for _, ret := range an.Returns(K) {
+		res := an.ReturnResults(ret)
+		if len(res) != 1 {
+			return nil, 0, false, false
+		}
+		if _, isC := an.IntConst(res[0]); !isC {
+			return nil, 0, false, false
+		}
+	}
+	pure := true
+	an.Instrs(K, func(in ssa.Instruction) {
+		switch y := in.(type) {
+		case *ssa.Store:
+			if _, local := an.CellRoot(y.Addr).(*ssa.Alloc); !local {
+				pure = false
+			}
+		case *ssa.Go, *ssa.Defer:
+			pure = false
+		case *ssa.Call:
+			if g := an.StaticCallee(y.Common()); g != nil && an.InModule(g) {
+				pure = false
+			} else if g == nil && !y.Common().IsInvoke() {
+				if _, isB := y.Common().Value.(*ssa.Builtin); !isB {
+					pure = false
+				}
+			}
+		}
+	})
+	if !pure {
+		return nil, 0, false, false
+	}
+	return call, k, bo.Op == token.NEQ, true
+}
+
+// classImpliesPred: the classifier test cond having the value truth implies
+// that a condition satisfying pred has polarity pol: every return of the
+// classifier which the test selects is control-dependent on such a condition
+// with that polarity.
+func classImpliesPred(cond ssa.Value, truth bool, pred func(ssa.Value) bool, depth int) (pol bool, known bool) {
+	call, k, neq, ok := classifierCallLoose(cond)
+	if !ok {
+		return false, false
+	}
+	K := an.StaticCallee(call.Common())
+	wantEq := truth != neq
+	n := 0
+	for _, ret := range an.Returns(K) {
+		v, _ := an.IntConst(an.ReturnResults(ret)[0])
+		if (v == k) != wantEq {
+			continue
+		}
+		pt := hasFactD(ret.Block(), true, pred, depth+1)
+		pf := hasFactD(ret.Block(), false, pred, depth+1)
+		if pt == pf {
+			return false, false
+		}
+		if n > 0 && pt != pol {
+			return false, false
+		}
+		pol = pt
+		n++
+	}
+	return pol, n > 0
 }
 
 func isErrorType(t types.Type) bool {
@@ -592,6 +758,13 @@ func ifsOn(fn *ssa.Function, pred func(ssa.Value) bool) []condIf {
 		cond, neg := an.Not(iff.Cond)
 		if pred(cond) {
 			out = append(out, condIf{iff, neg})
+			return
+		}
+		// a classifier test one of whose outcomes implies the predicate
+		if p, known := classImpliesPred(cond, true, pred, 0); known && p {
+			out = append(out, condIf{iff, neg})
+		} else if p, known := classImpliesPred(cond, false, pred, 0); known && p {
+			out = append(out, condIf{iff, !neg})
 		}
 	})
 	return out
